@@ -38,7 +38,7 @@ Has(rec, f) == f \in DOMAIN rec
 NamedD(p, rec) ==
   IF Has(rec, "hs") THEN {rec.hs[i] : i \in DOMAIN rec.hs}
   ELSE IF ~Has(rec, "h") THEN (IF Has(rec, "d") THEN {rec.d} ELSE {})
-  ELSE IF rec.act = "RemoveDescriptor" THEN Subtree(p, rec.h) \cup {p.D[rec.h].parent}
+  ELSE IF rec.act \in {"RemoveDescriptor", "RemoveEntity"} THEN Subtree(p, rec.h) \cup {p.D[rec.h].parent}
   ELSE IF rec.act \in {"AddDescriptor", "NewEntity"} THEN {rec.h, rec.p}
   ELSE {rec.h}
 NamedC(rec) == IF Has(rec, "c") THEN {rec.c} ELSE {}
@@ -48,7 +48,7 @@ FootC(p, os) == (UNION {NamedC(os[i]) : i \in 1..Len(os)})
                   \cup {c \in CH(p) : p.C[c].present /\ p.C[c].d \in FootD(p, os)}
 \* the rest of the MDIB (outside the projected universe) may change only by the parent-version rule
 RestMayChange(p, os) == \E i \in 1..Len(os) :
-                           \/ os[i].act = "RemoveDescriptor"   \* the real subtree may reach outside the projection
+                           \/ os[i].act \in {"RemoveDescriptor", "RemoveEntity"}   \* the real subtree may reach outside the projection
                            \/ (os[i].act \in {"AddDescriptor", "NewEntity"} /\ os[i].p = Ext)
 
 \* ------------------------------------------------------------------ abstract commit obligation
